@@ -280,5 +280,5 @@ LEVEL_NOTE = ("Size ceilings (not modelled, probed on the real code on every run
               "of the whole state is compared exactly). remove_backend / remove_tcp_frontend / remove_udp_frontend / "
               "remove_certificate leave empty buckets that generate_requests does not reproduce: `norm` drops them on both "
               "sides (exact equality is still computed by the driver); the internal debug assertion that tripped on them "
-              "was relaxed upstream-style (fix c4e7f59). The process hand-over of the upgrade is C10.")
+              "was relaxed upstream-style (fix f316963). The process hand-over of the upgrade is C10.")
 TECHNIQUE = "Rocq/Coq proof over an executable Gallina model (std++ gmap) + differential correspondence (extracted OCaml vs real crate, four replay paths)"
